@@ -118,6 +118,9 @@ class WebApp:
             path = script_config['file_name']
             if path[-3:] == ".ls":
                 path = path[:-3]
+            # The base name: a script kept in a sub-directory would otherwise
+            # get a path with a slash, which no request can reach.
+            path = path.rsplit('/', 1)[-1] or path
         return path
 
     def stop_script(self, path) -> bool:
